@@ -51,6 +51,9 @@ Inductive selfop :=
 | SUnion | SIntersection | SDifference | SSymDiff
 | SIsSubset | SIsSuperset | SIsDisjoint.
 
+(* calls with several operands, some of which are the set itself: s.update(a, s), s.union(s, b, s) ... *)
+Inductive mixop := MUpdate | MIntersectionUpdate | MDifferenceUpdate | MUnion | MIntersection | MDifference.
+
 (* ==, != (IndexedSet.__eq__) and the ordering operators inherited from collections.abc.Set *)
 Inductive cmpop := CEq | CNe | CLe | CLt | CGe | CGt.
 
@@ -77,7 +80,18 @@ Inductive op :=
 | Index (x : K) | Count (x : K) | Contains (x : K) | Len | Iter | Reversed
 | Snapshot                                 (* every index, negative too, index() of every item *)
 | SelfOp (k : selfop)                      (* the operand is the set itself *)
-| Cmp (k : cmpop) (o : operand).           (* s == o, s != o, s <= o, s < o, s >= o, s > o *)
+| Cmp (k : cmpop) (o : operand)            (* s == o, s != o, s <= o, s < o, s >= o, s > o *)
+| SelfMix (k : mixop) (os : list (option operand)).   (* None = the set itself *)
+
+Definition expand_mix (k : mixop) (os : list operand) : op :=
+  match k with
+  | MUpdate => Update os | MIntersectionUpdate => IntersectionUpdate os | MDifferenceUpdate => DifferenceUpdate os
+  | MUnion => Union os | MIntersection => Intersection os | MDifference => Difference os
+  end.
+
+(* an operand that is the set itself: an IndexedSet holding [self] *)
+Definition resolve_self (self : list K) (o : option operand) : operand :=
+  match o with Some o => o | None => Opd true self end.
 
 (* the same call with an explicit operand *)
 Definition expand_self (k : selfop) (o : operand) : op :=
